@@ -21,7 +21,7 @@ RULE = (
     "resp. reaction with >=1 changed bond"
 )
 REQUIRED = ["smiles_roundtrip_checked", "graph_tables_checked", "h_roundtrip_checked", "implicit_hydrogen_checked",
-            "implicit_hydrogen_multi_h_same_atom", "gml_roundtrip_checked", "gml_equivalence_checked",
+            "implicit_hydrogen_multi_h_same_atom", "gml_roundtrip_checked", "gml_equivalence_checked", "gml_second_generation_checked", "gml_second_generation_with_aromatic_bonds",
             "charged_molecules", "aromatic_molecules", "charge_changing_rules", "h2_molecules", "reindex_runs", "h_roundtrip_scrambled_ids", "multiply_charged_rules"]
 ASSUMPTIONS = [
     "stereochemistry is not carried by the graph layer; canonical SMILES compared non-isomerically",
@@ -288,6 +288,24 @@ def check_reaction(ctx, r, tag):
             ok = False
         if not ok:
             ctx.violation("gml-roundtrip", {**wit, "reindex": reindex}, "gml_to_its(its_to_gml(rc)) is not isomorphic to rc on (element, charges, order pairs)")
+        # full ITS through GML, and a second generation (an ITS that was itself loaded from GML is exported again:
+        # it carries the order pairs but none of the RDKit-derived flags)
+        for core, want, src, nm in ((False, want_full, its, "full"), (True, want_core, rc, "centre")):
+            try:
+                b1 = gml_to_its(its_to_gml(src, core=core, reindex=reindex))
+                ok1 = rules_equivalent(its_rule_graph(b1), want)
+                txt2 = its_to_gml(b1, core=core, reindex=reindex)
+                ok2 = rules_equivalent(read_gml(txt2), want)
+                ok3 = rules_equivalent(its_rule_graph(gml_to_its(txt2)), want)
+            except Exception as e:
+                ctx.violation("gml-second-generation", {**wit, "reindex": reindex, "core": core}, f"{nm} rule: {type(e).__name__}: {e}")
+                continue
+            ctx.count("gml_second_generation_checked")
+            if any(abs(d["order"][0] - 1.5) < 1e-9 or abs(d["order"][1] - 1.5) < 1e-9 for _, _, d in src.edges(data=True)):
+                ctx.count("gml_second_generation_with_aromatic_bonds")
+            if not (ok1 and ok2 and ok3):
+                ctx.violation("gml-second-generation", {**wit, "reindex": reindex, "core": core},
+                              f"{nm} rule: ITS->GML->ITS ok={ok1}; re-export of the loaded ITS encodes the same rule={ok2}; loaded again={ok3}")
     if WG.gdigest(its) != i0:
         ctx.violation("input-mutated", wit, "GML export modified the ITS")
     ctx.case(("rx", r), nontrivial=rc.number_of_edges() >= 1,
